@@ -14,7 +14,7 @@ import random
 import record_lib as rl
 import vlib
 
-KS = [0, 1, 15, 16, 17, 1000, 16384]
+KS = [0, 1, 15, 16, 17, 1000, 1300, 16384, 16385, 20000]
 
 
 def complete(ops):
@@ -30,15 +30,18 @@ def run(ctx):
     rng = random.Random(ctx.seed * 7919 + 28)
     t, grid = rl.tables(ctx)
     res, scns = rl.mc(ctx, "Record_MC_ks", classes=["tls12", "tls13"], sizes=[1, 1000, 16385], reads=[32768],
-                      kssizes=KS, kssides=["c"], maxops=3 if ctx.quick else 4, maxw=2, maxku=1, maxks=2, paths=True, workers=8)
+                      kssizes=KS, kssides=["c"], maxops=3 if ctx.quick else 4, maxw=2, maxku=1, maxks=2, paths=True,
+                      dyns=[False, True], workers=8)
     by_class = {"tls12": [], "tls13": []}
     for s in scns:
         if any(o["op"] == "K" for o in s["ops"]):
-            by_class[s["class"]].append(s["ops"])
-    seen_n = {o["n"] for c in by_class.values() for ops in c for o in ops if o["op"] == "K"}
+            by_class[s["class"]].append((s["ops"], s["dyn"]))
+    seen_n = {o["n"] for c in by_class.values() for ops, _ in c for o in ops if o["op"] == "K"}
+    if {d for c in by_class.values() for _, d in c} != {False, True}:
+        raise vlib.Machinery("Record_MC (keystream): dynamic record sizing was not explored both on and off")
     if seen_n != set(KS) or not by_class["tls12"] or not by_class["tls13"]:
         raise vlib.Machinery("Record_MC (keystream): lengths explored %s, classes %s" % (sorted(seen_n), {k: len(v) for k, v in by_class.items()}))
-    if not any(o["op"] == "KU" for ops in by_class["tls13"] for o in ops):
+    if not any(o["op"] == "KU" for ops, _ in by_class["tls13"] for o in ops):
         raise vlib.Machinery("Record_MC (keystream): no scenario queries around a key update")
     cells = sorted([c for c in grid["hs"] if not c["weak"]], key=lambda c: (c["vers"], c["suite"]))
     aead = [c for c in cells if c["kind"] == "aead"]
@@ -50,19 +53,19 @@ def run(ctx):
         pool = by_class[c["class"]]
         # stratify over the queried length so that every length meets every suite
         picks = []
+        # ... with dynamic record sizing on and off (TLC chose it: it is part of the scenario)
         for k in KS:
-            cand = [ops for ops in pool if any(o["op"] == "K" and o["n"] == k for o in ops)]
-            picks += rng.sample(cand, min(max(1, per // (2 * len(KS))), len(cand)))
+            for d in (False, True):
+                cand = [sc for sc in pool if sc[1] == d and any(o["op"] == "K" and o["n"] == k for o in sc[0])]
+                picks += rng.sample(cand, min(max(1, per // (4 * len(KS))), len(cand)))
         picks += rng.sample(pool, min(max(0, per - len(picks)), len(pool)))
-        for ops in picks:
+        for ops, d in picks:
             n += 1
-            # n = 16384 can only be compared in full when the first record is a full one: record sizing off
-            big = any(o["op"] == "K" and o["n"] > 1000 for o in ops)
-            jobs.append(rl.job(n, "hs", c, complete(ops), rng, dyn=(False if big else rng.random() < 0.5), ct=True))
+            jobs.append(rl.job(n, "hs", c, complete(ops), rng, dyn=d, ct=True))
     for c in other:      # not an AEAD suite: the query must fail and still change nothing
-        for ops in rng.sample(by_class["tls12"], 3):
+        for ops, d in rng.sample(by_class["tls12"], 3):
             n += 1
-            jobs.append(rl.job(n, "hs", c, complete(ops), rng, ct=True))
+            jobs.append(rl.job(n, "hs", c, complete(ops), rng, dyn=d, ct=True))
 
     def ks_canaries(by, good, base):
         out = {}
@@ -115,7 +118,22 @@ def run(ctx):
                 pend = None
     # (with reproduced rejections the verdict stands on those; the counts below only cover accepted scenarios)
     if not out["rej"]:
-        rl.need(out["stats"], ["Init.hs", "Keystream", "Keystream.err", "KsLaw", "Nonce", "KeyUpdate", "Read.kuresp", "Read.data", "Write.multi"], "C28")
+        rl.need(out["stats"], ["Init.hs", "Keystream", "Keystream.err", "KsLaw", "Nonce", "KeyUpdate", "Read.kuresp", "Read.data", "Write.multi",
+                               "Ramp.grow", "Ramp.off"], "C28")
+        # the query must have been followed by a multi-record Write while the ramp was still growing (record boundaries
+        # after the call are then a function of packetsSent), and by one with record sizing off
+        after = {False: 0, True: 0}
+        for sc, evs in out["by"].items():
+            pend = False
+            for e in evs:
+                if e["ev"] == "Keystream" and e["err"] == "":
+                    pend = True
+                elif e["ev"] == "Write" and e["x"] == "c" and pend:
+                    if len(e["wrote"]["c"]) > 1:
+                        after[jb[sc]["dyn"]] += 1
+                    pend = False
+        if not after[False] or not after[True]:
+            raise vlib.Machinery("C28: multi-record writes right after a query: %s" % after)
         if out["stats"].get("KsLaw", 0) != expect:
             raise vlib.Machinery("C28: XOR law evaluated %d times, %d query->record pairs were recorded" % (out["stats"].get("KsLaw", 0), expect))
         if set(lens) != set(KS):
@@ -123,7 +141,7 @@ def run(ctx):
     cov = {"evaluations": out["stats"].get("KsLaw", 0), "distinct_nontrivial": len({(j["vers"], j["suite"], str(j["ops"])) for j in jobs}),
            "rule": "every AEAD suite at TLS 1.2 (incl. legacy ChaCha20) and 1.3 x %d TLC-enumerated operation sequences containing the query "
                    "(stratified over the 7 lengths); evaluations = XOR-law evaluations on recorded bytes, distinct = (suite, sequence) pairs" % per,
-           "aead_cells": len(aead), "non_aead_cells": len(other), "mc_paths_with_query": sum(len(v) for v in by_class.values()),
+           "aead_cells": len(aead), "non_aead_cells": len(other), "mc_paths_with_query": sum(len(v) for v in by_class.values()), "multi_record_writes_after_query_by_dyn": {str(k): v for k, v in after.items()} if not out["rej"] else {},
            "law_evaluations_by_length": {str(k): v for k, v in sorted(lens.items())}, "events_judged": out["events"],
            "matched_steps": out["stats"], "canaries_rejected": out["canaries"],
            "samples": [{"vers": j["vers"], "suite": j["suite"], "dyn": j["dyn"], "ops": j["ops"][:5]} for j in jobs[:3]],
